@@ -11,6 +11,7 @@ namespace JS
 /-- `P` is closed under the generator combinators -/
 structure Closed (env : Env) (P : Gen → Prop) : Prop where
   emit : ∀ es, P (emit es)
+  nothing : P nothing
   /-- every stage that just stops — except "the consumer stopped pulling", which no stage of the
       model produces on its own (`.budget` only arises in `emit`) -/
   stop : ∀ s, s ≠ .budget → P (stopG s)
@@ -25,7 +26,7 @@ variable {env : Env} {P : Gen → Prop} (H : Closed env P)
 include H
 
 theorem P_emit (es : List Err) : P (JS.emit es) := H.emit es
-theorem P_nothing : P nothing := H.emit []
+theorem P_nothing : P JS.nothing := H.nothing
 theorem P_stopG {s : Stop} (hs : s ≠ .budget) : P (stopG s) := H.stop s hs
 theorem P_stopG_fuel : P (stopG .fuel) := H.stop _ nofun
 theorem P_stopG_miss (q : Query) : P (stopG (.miss q)) := H.stop _ nofun
@@ -37,7 +38,7 @@ theorem P_inner {g : Gen} (b' : Option Nat) (k : List Err → Gen) (hg : P g) (h
 
 theorem P_seqG {α : Type} (f : α → Gen) (xs : List α) (hf : ∀ x, P (f x)) : P (seqG f xs) := by
   induction xs with
-  | nil => exact H.emit []
+  | nil => exact H.nothing
   | cons x xs ih => exact H.andThen (hf x) ih
 
 theorem P_descendG {g : Gen} (p sp : Option PathElem) (hg : P g) : P (descendG g p sp) :=
@@ -65,7 +66,7 @@ theorem P_gate (cfg : Cfg) (inst : Json) (name : String) {k : Gen} (hk : P k) : 
   intro ok
   split
   · exact hk
-  · exact H.emit []
+  · exact H.nothing
 
 theorem P_kwRef {rec : Rec} (hrec : ∀ i s, P (rec i s)) (ref inst : Json) : P (JS.kwRef env rec ref inst) :=
   H.kwRef hrec ref inst
